@@ -100,7 +100,9 @@ def check_C08(tier, seed, replay=None):
 # topk-tie: the reference engine itself is not a function of its inputs there.
 # variance-conditioning: top-level stddev/stdvar whose difference is within the conditioning of the variance
 # (absolute 1e-12 * n * max|x|^2 on the variance); a relative tolerance on a variance of nearly equal values is meaningless.
-SKIP_TAGS = {"topk-tie", "variance-conditioning"}
+# ill-conditioned: a value-only difference on a case where the reference's own result moves by more than the tolerance
+# when every stored value is multiplied by (1 + 1e-13).
+SKIP_TAGS = {"topk-tie", "variance-conditioning", "ill-conditioned"}
 
 
 def known_by_tag(prop):
